@@ -50,6 +50,8 @@ Example::
 """
 
 
+import re
+
 import six
 
 import productmd.common
@@ -86,6 +88,10 @@ class Rpms(productmd.common.MetadataBase):
             nevra_dict = productmd.common.parse_nvra(nevra)
         except ValueError:
             raise ValueError("Invalid N-E:V-R.A: %s" % nevra)
+
+        # the epoch stands between name and version; a ':' in the directory or in the release does not make one
+        if not re.match(r"%s-[0-9]+:" % re.escape(nevra_dict["name"]), nevra.rsplit("/", 1)[-1]):
+            raise ValueError("Missing epoch in N-E:V-R.A: %s" % nevra)
 
         nevra_dict["epoch"] = nevra_dict["epoch"] or 0
         nevra = "%(name)s-%(epoch)s:%(version)s-%(release)s.%(arch)s" % nevra_dict
